@@ -2,7 +2,7 @@
    Only statements, each closed by [exact] of a lemma proved in Proofs/Ping*.v.
 
    The event system is Model/Ping.v: histories are lists of Begin (the waiter is registered under
-   the table lock) / Sent ok (the send returned) / BulkFail n / Notify / Skip / Tick / Timeout / End
+   the table lock) / Sent ok (the send returned) / BulkFail n / Notify / Skip / CloseSession / Tick / Timeout / End
    events, in the order the code performs them; any event of another goroutine may come between
    the Begin and the Sent of a call (a reply parsed while the call is still inside its send).
    Begin carries the call's timeout argument; time is the clock of the state, moved by Tick; [run fx (init n) tr = Ok s] says that tr is a well-formed history (every event enabled
@@ -228,6 +228,21 @@ Theorem C19_sent_notify_comm : forall fx s p i pg, Inv s ->
   run fx s [Sent p true; Notify i] = run fx s [Notify i; Sent p true].
 Proof. exact sent_notify_comm. Qed.
 Print Assumptions C19_sent_notify_comm.
+
+(* Sessions.  The waiter table is process-wide: Begin, Notify and End are the same whichever session
+   of the process makes the call or parses the frame (so a reply parsed by ANOTHER session completes
+   the call: the property says "is parsed", not by whom), and Session.Close does not touch the table:
+   pings pending on the closed session or on any other session stay registered and end by their reply
+   or their timer. *)
+Theorem C19_close_session_noop : forall fx s k, step fx s (CloseSession k) = Ok s.
+Proof. exact close_session_noop. Qed.
+Print Assumptions C19_close_session_noop.
+
+Example C19_sessions_example :
+  exists s, run FIX24 init_go ex_sessions = Ok s /\
+    result_of s 0%nat = Some RTimeout /\ result_of s 1%nat = Some RNil /\ tbl s = [].
+Proof. exact sessions_example. Qed.
+Print Assumptions C19_sessions_example.
 
 (* The waiter's channel is closed at most once: no history makes echoNotify panic. *)
 Theorem C19_no_panic : forall fx n tr, n < 65536 -> run fx (init n) tr <> Panic.
